@@ -567,20 +567,12 @@ def check_query_memo(P, R):
             m = d.args[0].value.replace(' ', '')
             if m.startswith('environ[') and m.endswith(']'):
                 keys.append(m[len('environ['):-1])
-    oc = P.func('ombott.request_pkg.request:BaseRequest._on_env_changed')
-    dropped = set()
-    for t in [n for n in oc.cfg.nodes if n.kind == 'test' and n.ast is not None]:
-        cp = compare_parts(t.ast)
-        if cp and cp[1] is ast.Eq and is_const(cp[2], 'QUERY_STRING'):
-            for m_ in T.succ_by_label(t, 'true'):
-                if m_.kind == 'stmt' and m_.ast is not None:
-                    dropped |= _str_consts(oc, m_.ast)
-    prefix = ''
-    for x in ast.walk(oc.node):
-        if isinstance(x, ast.BinOp) and isinstance(x.op, ast.Add):
-            lv = T.module_value(oc, x.left)
-            if isinstance(lv, ast.Constant) and isinstance(lv.value, str):
-                prefix = lv.value
+    ld = listener_drops(P, 'QUERY_STRING')
+    if ld is None:
+        if keys:
+            R.undecided('C18.d', q, q.node, 'request.query memo', 'how the change listener maps QUERY_STRING to the memos it drops has no recogniser')
+        return
+    dropped, prefix = ld
     if not keys:
         R.ob('C18.d', q, q.node, True, text='request.query is not memoised', nontrivial=False)
         return
@@ -608,3 +600,55 @@ def _str_consts(f, node):
             elif isinstance(v, (tuple, list, set, frozenset)):
                 out |= {e for e in v if isinstance(e, str)}
     return out
+
+
+def listener_drops(P, key):
+    """names of the `ombott.request.*` memos that BaseRequest._on_env_changed drops when environ key `key` ('QUERY_STRING', or 'HTTP_' for any header key) is
+    written through the request - read off an if/elif chain, a module-level dict / table of pairs, or a conditional expression.  (names, prefix) or None."""
+    oc = P.func('ombott.request_pkg.request:BaseRequest._on_env_changed')
+    names = set()
+    found = False
+    prefix_kind = key.endswith('_')
+
+    def key_test(t):
+        for x in ast.walk(t):
+            if prefix_kind and isinstance(x, ast.Call) and call_attr(x) == 'startswith' and x.args and is_const(T.module_value(oc, x.args[0]), key):
+                return True
+            cp = compare_parts(x) if isinstance(x, ast.Compare) else None
+            if not prefix_kind and cp and cp[1] is ast.Eq and (is_const(T.module_value(oc, cp[2]), key) or is_const(T.module_value(oc, cp[0]), key)):
+                return True
+        return False
+    for t in [n for n in oc.cfg.nodes if n.kind == 'test' and n.ast is not None]:
+        if key_test(t.ast):
+            for m_ in T.succ_by_label(t, 'true'):
+                if m_.kind == 'stmt' and m_.ast is not None:
+                    names |= _str_consts(oc, m_.ast)
+                    found = True
+    for x in ast.walk(oc.node):
+        if isinstance(x, ast.IfExp) and key_test(x.test):
+            names |= _str_consts(oc, x.body)
+            found = True
+    if not prefix_kind:
+        for x in ast.walk(oc.node):
+            if isinstance(x, ast.Name):
+                try:
+                    v = T.ceval(oc, x)
+                except T.CannotEval:
+                    continue
+                if isinstance(v, dict) and key in v and isinstance(v[key], (tuple, list, set, frozenset)):
+                    names |= {e for e in v[key] if isinstance(e, str)}
+                    found = True
+                elif isinstance(v, (tuple, list)) and all(isinstance(p_, (tuple, list)) and len(p_) == 2 for p_ in v):
+                    for k_, vs_ in v:
+                        if k_ == key and isinstance(vs_, (tuple, list, set, frozenset)):
+                            names |= {e for e in vs_ if isinstance(e, str)}
+                            found = True
+    prefix = ''
+    for x in ast.walk(oc.node):
+        if isinstance(x, ast.BinOp) and isinstance(x.op, ast.Add):
+            lv = T.module_value(oc, x.left)
+            if isinstance(lv, ast.Constant) and isinstance(lv.value, str):
+                prefix = lv.value
+    names.discard(key)
+    names.discard(prefix)
+    return (names, prefix) if found else None
